@@ -96,26 +96,230 @@ def strip_consumed(ans):
     return re.sub(r"^(OK .*) \d+$", r"\1", ans)
 
 
+# ---------------------------------------------------------------------- the model of CPython's pickler (C02_pickler)
+
+def py_token(o):
+    """A Python object of the basic types in the driver's value syntax."""
+    import struct
+    if o is None:
+        return "N"
+    if o is True:
+        return "T"
+    if o is False:
+        return "F"
+    if isinstance(o, int):
+        return f"I{o}"
+    if isinstance(o, float):
+        return "D" + struct.pack(">d", o).hex()
+    if isinstance(o, str):
+        return "S" + o.encode("utf-8", "surrogatepass").hex()
+    if isinstance(o, bytes):
+        return "B" + o.hex()
+    if isinstance(o, bytearray):
+        return "A" + bytes(o).hex()
+    if isinstance(o, list):
+        return "l( " + "".join(py_token(x) + " " for x in o) + ")"
+    if isinstance(o, tuple):
+        return "t( " + "".join(py_token(x) + " " for x in o) + ")"
+    if isinstance(o, dict):
+        return "d( " + "".join(py_token(k) + " " + py_token(v) + " " for k, v in o.items()) + ")"
+    raise TypeError(type(o))
+
+
+def is_tree(o, seen):
+    """No object the pickler memoizes occurs twice (the precondition of the pickler model: it never writes a GET)."""
+    if isinstance(o, (str, bytes, bytearray, list, dict)) or (isinstance(o, tuple) and o):
+        if id(o) in seen:
+            return False
+        seen.add(id(o))
+    if isinstance(o, (list, tuple)):
+        return all(is_tree(x, seen) for x in o)
+    if isinstance(o, dict):
+        return all(is_tree(k, seen) and is_tree(v, seen) for k, v in o.items())
+    return True
+
+
+def outside_pickler_model(o, p):
+    """What the model declares unmodelled: bytes below protocol 3 / bytearray below 5 (written through a memoized global),
+    lone surrogates in protocol-0 text, integers that need LONG4."""
+    if isinstance(o, bytes):
+        return p < 3
+    if isinstance(o, bytearray):
+        return p < 5
+    if isinstance(o, str):
+        return p == 0 and any(0xD800 <= ord(ch) <= 0xDFFF for ch in o)
+    if isinstance(o, bool) or o is None or isinstance(o, float):
+        return False
+    if isinstance(o, int):
+        return p >= 2 and not (-2 ** 31 <= o < 2 ** 31) and (o.bit_length() >> 3) + 1 > 255 and not (o < 0 and o == -(1 << (8 * 255 - 1)))
+    if isinstance(o, (list, tuple)):
+        return any(outside_pickler_model(x, p) for x in o)
+    if isinstance(o, dict):
+        return any(outside_pickler_model(k, p) or outside_pickler_model(v, p) for k, v in o.items())
+    return True
+
+
+def strip_frames(data):
+    import pickletools
+    out, last = bytearray(), 0
+    for op, _, pos in pickletools.genops(data):
+        if op.name == "FRAME":
+            out += data[last:pos]
+            last = pos + 9
+    out += data[last:]
+    return bytes(out)
+
+
+def tree_objects(rng, n):
+    import pickle   # noqa: F401
+    objs = []
+    for _ in range(n):
+        objs.append(pyside.ObjGen(rng, share=0.0).obj())
+    objs += [list(range(1000)), list(range(1001)), list(range(999)), {i: i for i in range(1000)}, {i: -i for i in range(999)},
+             {i: str(i) + "v" for i in range(1001)}, {i: i for i in range(2000)}, [str(i) + "x" for i in range(300)],
+             [[i, (i, str(i) + "t")] for i in range(1002)], {(i, i + 1): [i] for i in range(1000)},
+             1e16, 1e15, 123456789012345678.0, 1e-5, 1e-4, 0.1, 5e-324, 1.7976931348623157e308, -0.0, float("inf"), float("-inf"),
+             "a\n\r\x00\x1a\\\u00e9\u20ac\U0001f600", "\\u0041", "x" * 255, "y" * 256, "\u00e9" * 128, b"z" * 255, b"w" * 256,
+             [2 ** 31, -2 ** 31, -2 ** 31 - 1, 2 ** 63, -128, -129, 2 ** 2038, -2 ** 2039, 2 ** 2039 - 1, 255, 256, 65535, 65536, -1, -32768,
+              -32769, 2 ** 31 - 1, 127, 128, -2 ** 63, -2 ** 63 - 1, 2 ** 64, 32767, 32768, -2 ** 15, -2 ** 7, -2 ** 23],
+             (1,), (1, 2), (1, 2, 3), (1, 2, 3, 4), ((), [()], {(): ()}), [[[[[[]]]]]], {"k": {"k": {"k": {}}}},
+             bytearray(b"ab"), [bytearray(range(256)), b"\x00\xff"], {1: 1.0, "1": b"1", (1,): None, 2 ** 70: [True, False]}]
+    return objs
+
+
+def pickler_tie(ctx, objs):
+    """Ogorek/CPickle.lean (the model of CPython's pickler that theorem C02_pickler is about) against the real `pickle.dumps`,
+    byte for byte, on tree-shaped objects at every protocol; and, where the theorem's decidable hypothesis holds, its claim on the
+    implementation: Decode of these bytes succeeds, consumes them all and returns the documented value."""
+    import pickle
+    import pickletools
+    lines, meta = [], []
+    for o in objs:
+        if not is_tree(o, set()):
+            ctx.count("pickler-model:object-with-sharing(skipped)")
+            continue
+        t = py_token(o)
+        for p in range(6):
+            real = pickle.dumps(o, p)
+            lines.append(f"cpk 0 {p} {t}")
+            meta.append((o, p, strip_frames(real), real))
+            nfr = sum(1 for op, _, _ in pickletools.genops(real) if op.name == "FRAME")
+            if p >= 4 and nfr <= 1 and len(real) < 60000:
+                lines.append(f"cpk 1 {p} {t}")
+                meta.append((o, p, real, real))
+    ans = C.run_sharded(C.run_lean, lines)
+    dec_lines, dec_meta = [], []
+    for line, (o, p, want, real), a in zip(lines, meta, ans):
+        ctx.evaluations += 1
+        ctx.traces += 1
+        if a == "UNMODELLED":
+            if outside_pickler_model(o, p):
+                ctx.count("pickler-model:declared-unmodelled")
+                ctx.unmodelled += 1
+            else:
+                ctx.disagree(line[:3000], "pickle.dumps: " + hexs(want[:400]), a, "pickler model")
+            continue
+        if not a.startswith("OK "):
+            ctx.disagree(line[:3000], "pickle.dumps: " + hexs(want[:400]), a[:300], "pickler model")
+            continue
+        hx, flags = a[3:].split(" ")
+        if bytes.fromhex(hx) != want:
+            ctx.disagree(line[:3000], "pickle.dumps: " + hexs(want[:1000]), "model: " + hx[:2000], "pickler model")
+            continue
+        ctx.exact_agree += 1
+        ctx.count(f"pickler-model:same-bytes:proto{p}")
+        if line.startswith("cpk 1"):
+            continue
+        for pd in (False, True):
+            covered = flags[int(pd)] == "1" and (p >= 1 or not _has_float(o))
+            cfg = ("1" if pd else "0") + ctx.rng.choice("01")
+            dec_lines.append(f"dec {cfg} - {hexs(real)}")
+            dec_meta.append((o, p, pd, covered, real))
+    go, lean = run_both(dec_lines)
+    for line, (o, p, pd, covered, real), g, l in zip(dec_lines, dec_meta, go, lean):
+        ctx.evaluations += 1
+        ctx.tie(line[:4000], g, l)
+        ctx.nontrivial((line[4:6], real))
+        if not covered:
+            ctx.count("pickler-theorem:outside-hypotheses(" + ("protocol-0 float text" if p == 0 and _has_float(o) else
+                                                                "tuple / big-int key in map mode" if not pd else "keys") + ")")
+            continue
+        ctx.count("pickler-theorem:covered")
+        want = pyside.render_expected(pyside.table(o, pd))
+        if not g.startswith("OK "):
+            ctx.violate("Decode failed on a CPython pickle that theorem C02_pickler covers", line[:3000], "OK " + want[:300], g[:300])
+            continue
+        body, consumed = g[3:].rsplit(" ", 1)
+        if int(consumed) != len(real):
+            ctx.violate("Decode did not consume the whole pickle", line[:3000], len(real), consumed)
+        got = pyside.intagnostic(body)
+        if got != want:
+            ctx.violate("decoded value differs from the documented value for the pickled object (C02_pickler)", line[:3000],
+                        want[:1200], got[:1200])
+
+
+def _has_float(o):
+    if isinstance(o, float):
+        return True
+    if isinstance(o, (list, tuple)):
+        return any(_has_float(x) for x in o)
+    if isinstance(o, dict):
+        return any(_has_float(k) or _has_float(v) for k, v in o.items())
+    return False
+
+
+
 # ------------------------------------------------------------------------------------------- C02
 
 class C02:
     prop = "C02"
-    lean_module = "Ogorek.Props.C02"
-    theorems = ["Ogorek.C02_memo_keys", "Ogorek.C02_K1_witness", "Ogorek.C19_LONG1", "Ogorek.C19_counted", "Ogorek.C02_bytes_forms"]
-    trusted_base = TB_PY
-    level_text = ("Lean theorems: the memo key space is shared by PUT/BINPUT/LONG_BINPUT/GET/BINGET/LONG_BINGET and MEMOIZE numbering "
-                  "(C02_memo_keys), every LONG1 width and every counted payload decodes to the pickled number / payload (C19_LONG1, "
-                  "C19_counted), the empty bytes()/bytearray() and the _codecs.encode / bytearray(bytes) forms CPython emits below "
-                  "protocol 3/5 decode to Bytes / []byte (C02_bytes_forms). The list-sharing half of the statement is FALSE for the code "
-                  "(C02_K1_witness: `[x, x]` with a non-empty list x decodes to `[x, []]`) — known finding K1; lone surrogates at protocol 0 "
-                  "— known finding K4. PARTIAL: a closed refinement theorem against a CPython pickler model is not attempted; the statement "
-                  "is decided per run by decoding what the three real CPython picklers emit for generated objects in all four modes and "
-                  "comparing with the documented table, the model agreeing with the implementation on every case.")
-    level_note = "trusted: Lean kernel + standard axioms; decoder model; CPython's picklers as the source of inputs and the object itself as oracle"
-    technique = "Lean 4 proof (per-form lemmas, K1 witness by evaluation) + differential correspondence on real CPython pickles + documented-table oracle"
+    lean_module = "Ogorek.Props.C02Pk"
+    theorems = ["Ogorek.C02_pickler", "Ogorek.C02_pickler_framed", "Ogorek.C02_pickler_bin", "Ogorek.pk_val", "Ogorek.runs_listGroups",
+                "Ogorek.runs_dictGroups", "Ogorek.batchList_groups", "Ogorek.batchDict_groups", "Ogorek.assignAll_batch",
+                "Ogorek.cpRue_inv", "Ogorek.cpRue_no_lf", "Ogorek.long1Width_fits", "Ogorek.pkOK_of_b",
+                "Ogorek.C02_memo_keys", "Ogorek.C02_K1_witness", "Ogorek.C19_LONG1", "Ogorek.C19_counted", "Ogorek.C02_bytes_forms"]
+    trusted_base = TB_PY + ["Ogorek/CPickle.lean: a hand-written model of CPython's C pickler on tree-shaped objects of the basic types "
+                            "(opcode choice, memo numbering, batches of 1000, one-frame framing), compared byte for byte with "
+                            "pickle.dumps on every run"]
+    level_text = ("Lean theorem C02_pickler (and _framed, _bin): for EVERY Python object built from None, bool, int, float, str, bytes, "
+                  "bytearray, tuple, list and dict, nested to any depth and of any size, in which no memoized object occurs twice, ALL "
+                  "protocols 0-5 and all four decoder configurations, from any decoder state, with or without a PersistentLoad hook: if "
+                  "pickle.dumps(obj, p) is within the pickler model (cpDumps: the opcode CPython's save_* picks for each value and "
+                  "protocol, a PUT / BINPUT / LONG_BINPUT / MEMOIZE with the running index after every str, bytes, bytearray, tuple, "
+                  "list and dict, lists and dicts created empty and filled by APPEND(S) / SETITEM(S) in batches of 1000 exactly as "
+                  "batch_list_exact / batch_dict_exact do - including the empty MARK SETITEMS after a dict whose size is a multiple of "
+                  "1000 -, PROTO and one FRAME), then Decode of exactly these bytes succeeds, consumes all of them and returns the "
+                  "documented Go value goOf obj (int64 / *big.Int as the opcode dictates, string, Bytes, []byte, Tuple, []any, map / "
+                  "Dict by mode with the entries in order). Proof: mutual structural induction over the object (pk_val) in a run "
+                  "framework with preconditions and a representation relation with LOCALITY (RepG: a decoded value refers only to "
+                  "heap objects allocated after a given index), which is what keeps the keys and values already decoded valid while "
+                  "SETITEM(S) updates the dict under construction in place (runs_dictGroups, assignAll_batch); the batch loops are "
+                  "decomposed into groups (batchList_groups, batchDict_groups). Also proved, not assumed: og-rek's raw-unicode-escape "
+                  "reading inverts CPython's protocol-0 writing of text with its extra escapes (cpRue_inv, cpRue_no_lf), and the "
+                  "least LONG1 width holds the number (long1Width_fits). Hypotheses: the keys of each dict acceptable to the decoder's "
+                  "table and pairwise different for it (keysOK as in C03: with builtin maps no tuple / *big.Int key), bytearrays < 4 "
+                  "GiB; at protocol 0 only, ParseFloat reads Python's repr of each float back (PyFloatTextOK, not proved); from "
+                  "protocol 1 on the hypotheses are decidable (pkOKb, C02_pickler_bin) and evaluated for every compared case. "
+                  "Per-form lemmas as before: one memo key space for all PUT / GET widths and MEMOIZE (C02_memo_keys), every LONG1 "
+                  "width and counted payload (C19_LONG1, C19_counted), the bytes()/bytearray() and _codecs.encode / "
+                  "bytearray(bytes) forms CPython emits below protocol 3/5 (C02_bytes_forms). PARTIAL: objects in which a memoized "
+                  "object occurs twice (the pickler then writes GET): the list-sharing half of the statement is FALSE for the code "
+                  "(C02_K1_witness: `[x, x]` with a non-empty list x decodes to `[x, []]`) - known finding K1; bytes below protocol 3 "
+                  "and bytearray below protocol 5 inside containers (written through a memoized global that later ones GET); lone "
+                  "surrogates at protocol 0 - known finding K4; the pure-Python pickler and pickletools.optimize variants. These are "
+                  "decided per run by decoding what the three real CPython picklers emit for generated objects in all four modes and "
+                  "comparing with the documented table, the decoder model agreeing with the implementation on every case.")
+    level_note = ("trusted: Lean kernel + standard axioms; decoder model; the pickler model (tied byte for byte to pickle.dumps each run); "
+                  "CPython's picklers as the source of inputs and the object itself as oracle")
+    technique = ("Lean 4 proof (structural induction over the Python object against a model of CPython's pickler; locality invariant "
+                 "for in-place dict updates; K1 witness by evaluation) + byte-for-byte correspondence of the pickler model with "
+                 "pickle.dumps + differential correspondence on real CPython pickles + documented-table oracle")
     rule = ("Python objects over {None, bool, int (|n| < 2^2039), float, str, bytes, bytearray, list, tuple, dict} incl. empty "
             "containers/payloads, DAG sharing of any sub-object, 2500-element containers (BATCHSIZE), LONG1 of many widths; pickled by "
-            "the C pickler, pickle._Pickler and pickletools.optimize at protocols 0-5; decoded in 4 modes; distinct = distinct (mode, pickle)")
+            "the C pickler, pickle._Pickler and pickletools.optimize at protocols 0-5; decoded in 4 modes; plus tree-shaped objects "
+            "(lists / dicts of 999, 1000, 1001, 2000 entries, integer / float / text edge values) on which the pickler model must "
+            "reproduce pickle.dumps byte for byte at every protocol and the theorem's claim is checked on the implementation; "
+            "distinct = distinct (mode, pickle)")
     assumptions = ["dict keys are not NaN (Python itself treats NaN keys by identity)"]
 
     def run(self, ctx):
@@ -177,6 +381,7 @@ class C02:
             if got != want:
                 ctx.violate("decoded value differs from the documented table for the pickled object", line[:3000], want[:1200], got[:1200],
                             known="K1" if k1 else None)
+        pickler_tie(ctx, tree_objects(rng, ctx.scale(150, 3000)))
         for i in range(0, len(lines), max(1, len(lines) // 8)):
             ctx.sample(lines[i][:200] + " -> " + go[i][:200])
 
